@@ -12,6 +12,11 @@
     every n.  The filesystem afterwards (destination absent / old / complete / partial, temp file
     present) and the call result are judged by Trace_PullCommit with PullCommit!Allowed.  Value-decoding
     pulls over a cut connection must return an error.
+ 3. system-call traces: each of the five pull-to-file entry points runs in a child under
+    `strace -f -y -P <dest>.svspart -P <dest>`; every completed system call on those two paths is one
+    trace line, validated by Trace_PullSys.tla as PullCommit actions (create, write*, fsync, rename /
+    unlink) with the unobservable steps silent; then the run is repeated with a SIGKILL injected at
+    each of those calls in turn, and the model's destination and temp file must equal the real ones.
 """
 import json
 import vlib
@@ -22,13 +27,16 @@ LEVEL = "fault_enumeration"
 def run(ctx):
     q = not ctx.thorough
     for pre in ("absent", "old"):
-        ctx.tlc_mc("PullCommit", f"MC_PullCommit_{pre}.cfg", workers=2, must_cover=["CreateTmp", "WriteChunk", "Rename", "FailInProcess", "GuardDrop", "Kill"])
+        ctx.tlc_mc("PullCommit", f"MC_PullCommit_{pre}.cfg", workers=2,
+                   must_cover=["CreateTmp", "WriteChunk", "SeeEnd", "EndFill", "Sync", "Verify", "Rename", "FailInProcess", "FailAtEnd", "PullErrorSurfaces", "GuardDrop", "Kill"])
+    ctx.tlc_mc("PullCommit", "MC_PullCommit_noend.cfg", workers=2, expect_violation="DestNeverPartial")
     ctx.coverage["checker_cmd"] = "tlc -workers 2 -coverage 1 -config spec/MC_PullCommit_*.cfg spec/PullCommit.tla"
     tr = ctx.work / "c10.ndjson"
     sm = ctx.work / "c10.json"
     files = ctx.work / "files"
     files.mkdir()
-    ctx.vh("vs-c10", "--dir", files, "--out", tr, "--summary", sm, "--kill-points", 6 if q else 14, timeout=3300)
+    sy = ctx.work / "c10sys.ndjson"
+    ctx.vh("vs-c10", "--dir", files, "--out", tr, "--sys-out", sy, "--summary", sm, *([] if q else ["--thorough"]), timeout=3300)
     st = json.loads(sm.read_text())
     res = ctx.tlc_trace("Trace_PullCommit", "Trace_PullCommit.cfg", tr, timeout=600)
     if not res["accepted"]:
@@ -39,14 +47,51 @@ def run(ctx):
         if kind == "tool_error":
             raise vlib.ToolError("strace could not be run in this sandbox")
         ctx.violation(f"c10:{kind}:{e.get('scenario')}", f"{kind}: scenario {e.get('scenario')} fault {e.get('fault')} puller {e.get('puller')} comp {e.get('comp')} pre {e.get('pre')}: {json.dumps(e)}", e)
-    killed = sum(1 for e in evs if e.get("killed"))
+    # ---- system-call traces
+    sevs = vlib.read_ndjson(sy)
+    if any(e.get("ev") == "tool_error" for e in sevs) or not sevs:
+        raise vlib.ToolError("strace could not be run in this sandbox")
+    runs, cur = [], []
+    for e in sevs:
+        if e["ev"] == "begin" and cur:
+            runs.append(cur); cur = []
+        cur.append(e)
+    if cur:
+        runs.append(cur)
+    remaining, rejected = runs, 0
+    for attempt in range(6):
+        part = ctx.work / f"c10sys-{attempt}.ndjson"
+        part.write_text("".join(json.dumps(e) + "\n" for r in remaining for e in r))
+        res2 = ctx.tlc_trace("Trace_PullSys", "Trace_PullSys.cfg", part, timeout=600)
+        if res2["accepted"]:
+            break
+        line, n, bad = res2["unmatched"] or 1, 0, None
+        for i, r in enumerate(remaining):
+            if n + len(r) >= line:
+                bad = i; break
+            n += len(r)
+        if bad is None:
+            bad = len(remaining) - 1
+        r = remaining[bad]
+        b, at = r[0], r[min(max(line - n - 1, 0), len(r) - 1)]
+        what = at.get("what") if at.get("ev") == "sys" else at.get("ev")
+        ctx.violation(f"c10sys:{b['puller']}:{b['scenario']}:{'kill' if b['fault'] != 'none' else 'run'}:{what}",
+                      f"system-call trace not a PullCommit behaviour ({res2['detail']}) at {json.dumps(at)[:300]}; run: puller {b['puller']} scenario {b['scenario']} fault {b['fault']} comp {b['comp']} pre {b['pre']}",
+                      {"run": r, "line_in_run": line - n})
+        rejected += 1
+        remaining = remaining[:bad] + remaining[bad + 1:]
+    killed = sum(1 for e in evs if e.get("killed")) + sum(1 for e in sevs if e.get("ev") == "end" and e.get("killed"))
+    ctx.coverage["syscall_runs"] = len(runs)
+    ctx.coverage["syscall_events"] = len(sevs)
+    ctx.coverage["kill_sites"] = sorted({e["fault"] for e in sevs if e.get("ev") == "end" and e.get("killed")})
+    evs = evs + [e for e in sevs if e["ev"] == "end"]
     ctx.coverage["evaluations"] = len(evs)
     ctx.coverage["distinct_nontrivial"] = len({(e.get("scenario"), str(e.get("fault")), e.get("puller"), e.get("comp"), e.get("pre")) for e in evs})
     ctx.coverage["rule"] = "distinct (scenario, fault placement, puller, compression, destination pre-state) cases; a case is non-trivial by construction (it injects a fault or checks the happy path)"
-    ctx.coverage["traces_validated_against_impl"] = st["cases"] - len(res["mismatches"])
+    ctx.coverage["traces_validated_against_impl"] = st["cases"] - len(res["mismatches"]) - rejected
     ctx.coverage["kill_points_that_killed"] = killed
     ctx.coverage["samples"] = []
-    ctx.sample({"kind": "a pull killed at its first rename", "event": next((e for e in evs if e.get("killed") and str(e.get("fault", "")).startswith("rename")), evs[0])})
+    ctx.sample({"kind": "a pull killed at its first rename", "run": next((r for r in runs if r[0]["fault"].startswith("rename")), runs[0])})
     ctx.sample({"kind": "producer failure one byte after a chunk boundary", "event": next(e for e in evs if e.get("scenario") == "producer_failure")})
     ctx.assume("POSIX rename atomicity; durability after power loss is not exercised (only process death)",
                "process death is injected with strace fault injection on syscalls touching the temp or destination path; kill points beyond the number of such syscalls do not kill and the pull completes",
